@@ -126,6 +126,47 @@ def run(ctx):
                         if not (r[0] == "err" and r[1] == "TypeError") or stored:
                             ctx.violation(what="items that are not instances of the value type were accepted", target=TYPES[tt].__name__, items=str(SAMPLE[st_]), container=cname, op=opn,
                                           observed=(show(r)[:120] + f" -> {got}"), required="TypeError, nothing of the wrong type stored")
+    # ---- empty vectors: whatever is passed as value_type, every element that is ever stored is a bool, int, float or str and all
+    #      elements are instances of ONE of those types (the property's "always an instance of the vector's value type") -----------
+    import enum, fractions, decimal as _dec
+
+    class _Color(enum.IntEnum):
+        RED = 1
+    odd_types = [object, (int, str), (bool, int, float, str), bytes, complex, list, type(None), fractions.Fraction, _dec.Decimal, bytearray, tuple, dict,
+                 "int", 1, int | str, type, _Color, bool, int, float, str]
+    probes = [True, 3, 2.5, "s", b"x", [1], None, 2j, fractions.Fraction(1, 2), _dec.Decimal(1), (1,), {}, _Color.RED]
+    for vt in odd_types:
+        o = outcome(lambda: Vector([], value_type=vt))
+        ctx.case(("odd-value-type", repr(vt)))
+        ctx.count("value_type", "supported" if vt in (bool, int, float, str) else "other")
+        if o[0] == "err":
+            if vt in (bool, int, float, str):
+                ctx.violation(what="constructor refused a supported value_type", value_type=repr(vt), observed=show(o), required="an empty Vector")
+            elif o[1] != "TypeError":
+                ctx.violation(what="constructor error class for an unsupported value_type", value_type=repr(vt), observed=show(o), required="TypeError")
+            continue
+        v = o[1]
+        for route in ("append", "insert", "extend", "setslice", "iadd"):
+            for x in probes:
+                if route == "append": outcome(lambda: v.append(x))
+                elif route == "insert": outcome(lambda: v.insert(0, x))
+                elif route == "extend": outcome(lambda: v.extend([x]))
+                elif route == "setslice": outcome(lambda: v.__setitem__(slice(0, 0), [x]))
+                else:
+                    def f():
+                        w_ = v; w_ += [x]
+                    outcome(f)
+                held = list(v)
+                bad = [y for y in held if not isinstance(y, (bool, int, float, str))]
+                one = any(all(isinstance(y, T) for y in held) for T in (bool, int, float, str))
+                if bad or not one:
+                    ctx.violation(what="a Vector created empty with this value_type holds elements that are not all instances of one of bool/int/float/str",
+                                  value_type=repr(vt), route=route, item=repr(x), observed=repr(held)[:200],
+                                  required="TypeError at construction, or every stored element an instance of one supported type")
+                    break
+            else:
+                continue
+            break
     n_hist = 250 if ctx.quick else 8000
     for h in range(n_hist):
         t = rng.choice("bifs")
